@@ -131,7 +131,7 @@ func (m *machine) Next(t *rapid.T) hOp {
 	}
 	// a restart: anywhere in the history, preferably (once) while cross-chain transfers are pending
 	if (openHTLT > 0 && m.n.reimports == 0 && chance(t, "reimport/first", 7)) || chance(t, "reimport/any", 2) {
-		return m.genReimport()
+		return m.genReimport(t)
 	}
 	if m.c03() && m.n.bursts == 0 && uni(t, "burst", 120) == 0 {
 		// more than a hundred contracts in one expiry bucket (anything that pages through a bucket sees a second page)
@@ -183,11 +183,11 @@ func (m *machine) Next(t *rapid.T) hOp {
 	}
 }
 
-func (m *machine) genReimport() hOp {
+func (m *machine) genReimport(t *rapid.T) hOp {
 	if !switchF11 && m.importNeedsCompatibleParams() {
 		return hOp{Kind: "skip", Note: "skipped:reimport-with-incompatible-params"}
 	}
-	return hOp{Kind: "reimport"}
+	return hOp{Kind: "reimport", Respell: chance(t, "respell", 35)}
 }
 
 func (m *machine) openContracts() []*contract {
